@@ -74,6 +74,10 @@ CLAIMED["C12"] = ("partial: option logic and file-format algebra proved; OS laye
   "ips_front, sfc_front, plan_mapping/format/defines/copier_sfc, mappings_have_bus, copier_shift, sfc_is_ips_applied, symbol_line_fields. Tie: stream S8-front: every lattice point format x mapping x copier x defines with generated programs through Program.assemble / assemble_as_patch and the command line; output files compared with the model of the writers applied to the in-memory blocks and checked by the reader/patcher oracle; S8-symbol-file for exports_symbol_file.",
   "argparse, file I/O and process exit are not modelled. The command line has no option for the symbol file (API only).")
 
+CLAIMED["C19"] = ("partial: the inductive argument is proved; immutability of the shared Python objects is observed by a monitor", "6/C19", "Lean 4 proof (history irrelevance and repeatability for any step function satisfying the frame condition; the model's assembler is a pure function of its arguments; frozen built-in buses reject .map — regenerated tables) + history correspondence in fresh interpreters with a monitor that fingerprints every module/class-level mutable object and function default of the packages",
+  "frame_run, history_irrelevant, repeatable, model_frame, builtin_buses_frozen, frozen_bus_rejects_map. Tie: stream S19: histories of assemblies (macros, symbols, tables, custom maps of different geometry, failures in each phase) then a probe, in one fresh interpreter, vs the probe alone in another; the object inventory is the one of harness/extract.py (`Gen.globals`), recomputed in the child, so a new module-level cache is monitored automatically.",
+  "The frame condition for the real code is observed on the generated histories, not proved.")
+
 NOT_YET = {}
 
 def main():
